@@ -12,7 +12,6 @@ from collections import Counter
 from copy import deepcopy
 from functools import reduce
 from itertools import count
-from textwrap import dedent
 from types import TracebackType
 
 from .selector import Element, check_element
@@ -1153,14 +1152,20 @@ def transform(fn, proceed, to_instrument=True, set_conformer=True):
     if to_instrument is True:
         to_instrument = [_GENERIC]
 
-    src = dedent(inspect.getsource(fn))
+    src = inspect.getsource(fn)
+    # An indented definition (method, nested function) is parsed as the
+    # body of a block. Dedenting the text would also change the lines of
+    # multi-line string literals, or fail if one of them is not indented.
+    wrapped = src[:1] in (" ", "\t")
+    if wrapped:
+        src = "if 1:\n" + src
 
     # Scrape the comments in the function's source and map them to lines.
     comments = {}
     for tok in tokenize.tokenize(_readline_mock(src)):
         if tok.type == tokenize.COMMENT:
             if tok.line.strip().startswith("#"):
-                line = tok.end[0]
+                line = tok.end[0] - wrapped
                 comments[line + 1] = tok.string[1:].strip()
                 if line in comments:
                     comments[line + 1] = (
@@ -1172,6 +1177,9 @@ def transform(fn, proceed, to_instrument=True, set_conformer=True):
     filename = inspect.getsourcefile(fn)
     tree = ast.parse(src, filename)
     tree = tree.body[0]
+    if wrapped:
+        tree = tree.body[0]
+        ast.increment_lineno(tree, -1)
     if not isinstance(tree, ast.FunctionDef):
         raise TypeError(
             f"transform() only works on functions defined with def (got {fn})"
